@@ -29,7 +29,7 @@ fn cases() -> Vec<Case> {
     for (exec, addrs) in [(true, EXEC_ADDRS), (false, TEXT_ONLY)] {
         for a in addrs {
             for st in styles {
-                for kind in ["struct_singleton", "enum_singleton"] {
+                for kind in ["struct_singleton", "opaque_struct_singleton", "enum_singleton"] {
                     k += 1;
                     out.push(Case { kind, addr: *a + 0x800 * exec as u64, style: st, ety: 0, exec, public: k % 2 == 0 });
                 }
@@ -42,6 +42,8 @@ fn cases() -> Vec<Case> {
     }
     for ety in 0..ETYS.len() {
         out.push(Case { kind: "extern_without_address", addr: 0, style: NumStyle::Dec, ety, exec: false, public: true });
+        // ... also when another extern value before it does have one
+        out.push(Case { kind: "extern_without_address_after_addressed", addr: 0x10900, style: NumStyle::Hex, ety, exec: false, public: true });
     }
     out
 }
@@ -62,6 +64,12 @@ fn module_of(c: &Case) -> String {
     let mut items = vec![];
     match c.kind {
         "struct_singleton" => s.singleton = Some(c.addr as i128),
+        "opaque_struct_singleton" => {
+            // a type known only by name: no fields, just the singleton and an impl function
+            s.singleton = Some(c.addr as i128);
+            s.fields = vec![];
+            s.align = None;
+        }
         "enum_singleton" => e.singleton = Some(c.addr as i128),
         _ => {}
     }
@@ -79,16 +87,21 @@ fn module_of(c: &Case) -> String {
     match c.kind {
         "extern_value" => items.push(Item::ExternValue { name: "gv".into(), public: c.public, ty: ety, address: Some(c.addr as i128) }),
         "extern_without_address" => items.push(Item::ExternValue { name: "gv".into(), public: c.public, ty: ety, address: None }),
+        "extern_without_address_after_addressed" => {
+            items.push(Item::ExternValue { name: "first".into(), public: true, ty: MTy::b("u32"), address: Some(c.addr as i128) });
+            items.push(Item::ExternValue { name: "gv".into(), public: c.public, ty: ety, address: None });
+            items.push(Item::ExternValue { name: "last".into(), public: true, ty: MTy::b("u32"), address: Some(c.addr as i128 + 0x10) });
+        }
         _ => {}
     }
-    Printer { style: c.style }.module(&ModuleS::new("m").with(items))
+    Printer { style: c.style, reverse_type_attrs: false, docs_after_attrs: false }.module(&ModuleS::new("m").with(items))
 }
 
 fn driver(c: &Case) -> String {
     let a = c.addr;
     let mut s = String::from("\n#[allow(warnings)]\npub mod __verif_exec {\n    use super::*;\n    pub unsafe fn run() {\n");
     match c.kind {
-        "struct_singleton" => {
+        "struct_singleton" | "opaque_struct_singleton" => {
             s.push_str(&format!("        crate::rt::map_data({a:#x}, 16);\n        let mut o1: S = core::mem::zeroed();\n        let mut o2: S = core::mem::zeroed();\n"));
             s.push_str(&format!("        *({a:#x}usize as *mut u64) = 0;\n        crate::rt::begin(\"null\");\n        let r = S::get();\n        crate::rt::end(r.is_none() as u64, &[]);\n"));
             for o in ["o1", "o2"] {
@@ -144,7 +157,7 @@ fn judge_text(c: &Case, text: &str) -> Option<(String, String)> {
         Err(e) => return Some(("output_unreadable".into(), e)),
     };
     let (f, want_out) = match c.kind {
-        "struct_singleton" => (fi.method("S", "get"), "Option<&'static mut Self>".to_string()),
+        "struct_singleton" | "opaque_struct_singleton" => (fi.method("S", "get"), "Option<&'static mut Self>".to_string()),
         "enum_singleton" => (fi.method("E", "get"), "Self".to_string()),
         _ => (fi.fns.iter().find(|f| f.name == "get_gv"), format!("&'static mut {}", ETYS[c.ety].1)),
     };
@@ -164,7 +177,7 @@ fn judge_text(c: &Case, text: &str) -> Option<(String, String)> {
     }
     // struct singletons go through one indirection, enum singletons and extern values through none
     let derefs_ptr_to_ptr = f.body.contains("*mut*mut Self") || f.body.contains("*mut *mut Self");
-    if (c.kind == "struct_singleton") != derefs_ptr_to_ptr {
+    if c.kind.ends_with("struct_singleton") != derefs_ptr_to_ptr {
         return Some(("accessor_indirection_differs".into(), f.body.clone()));
     }
     None
@@ -172,7 +185,7 @@ fn judge_text(c: &Case, text: &str) -> Option<(String, String)> {
 
 fn judge_exec(c: &Case, recs: &[Record]) -> Option<(String, String)> {
     match c.kind {
-        "struct_singleton" => {
+        "struct_singleton" | "opaque_struct_singleton" => {
             let n = recs.iter().find(|r| r.label == "null")?;
             if n.ret != 1 {
                 return Some(("null_singleton_not_none".into(), "get() returned Some for a null pointer".into()));
@@ -228,8 +241,8 @@ pub fn run(tier: &str, only: Option<&Value>) -> i32 {
             rep.distinct_str(&format!("{}{:#x}{:?}{}", c.kind, c.addr, c.style, c.ety));
             let viol = match (&v, c.kind) {
                 (pipe::Verdict::Panic(p), _) => Some(("panic".to_string(), p.clone())),
-                (pipe::Verdict::Ok(_), "extern_without_address") => Some(("extern_value_without_address_accepted".to_string(), String::new())),
-                (_, "extern_without_address") => {
+                (pipe::Verdict::Ok(b), "extern_without_address" | "extern_without_address_after_addressed") => Some(("extern_value_without_address_accepted".to_string(), b.files["m.rs"].clone())),
+                (_, "extern_without_address" | "extern_without_address_after_addressed") => {
                     rep.count("rejected_as_required", 1);
                     None
                 }
